@@ -346,7 +346,7 @@ func agg(r *chk.Run, prop string, jobs []Job, results []*e1.Result) {
 		}
 		sort.Slice(idx, func(a, b int) bool { return results[idx[a]].Execs > results[idx[b]].Execs })
 		for k, i := range idx {
-			if k >= 25 {
+			if k >= 25 && os.Getenv("VERIF_VERBOSE") != "all" {
 				break
 			}
 			fmt.Printf("  job %-60s bound=%d execs=%d pruned=%d states=%d complete=%v\n", results[i].Name, results[i].Bound, results[i].Execs, results[i].Pruned, results[i].States, results[i].Complete)
